@@ -23,6 +23,10 @@ func (c02) Count(tier string) int {
 // genLateOps: like genWindowOps, with more late rows placed around (window end + lateness) and
 // with deliveries lagging behind the adds.
 func genLateOps(rng *rand.Rand, c *Case, unit, ooo, lateness int64) {
+	gapEvery := 4 // one delivery in gapEvery carries an Add in its unlock gap
+	if cfgStr(*c, "kind", "") == "sliding" && lateness > 0 {
+		gapEvery = 2 // overlapping windows: the row of the gap often lies in the window being delivered
+	}
 	nextID := 1
 	n := 10 + rng.Intn(30)
 	front := int64(3)
@@ -84,13 +88,22 @@ func genLateOps(rng *rand.Rand, c *Case, unit, ooo, lateness int64) {
 				continue
 			}
 			op := []string{"deliver"}
-			if rng.Intn(4) == 0 {
+			if rng.Intn(gapEvery) == 0 {
 				back := ooo + rng.Int63n(lateness+2*unit+1)
+				if gapEvery == 2 && rng.Intn(2) == 0 {
+					back = ooo + 1 + rng.Int63n(2*unit) // just behind the watermark: inside the window that has just fired
+				}
 				t := tsBase + front*unit - back
 				if t < tsBase {
 					t = tsBase
 				}
-				op = append(op, strconv.Itoa(rng.Intn(2))+":"+strconv.Itoa(nextID)+":"+itoa(t))
+				if gapEvery == 2 && rng.Intn(2) == 0 {
+					// aimed at the window being delivered (resolved when it is handed over)
+					op = append(op, strconv.Itoa(rng.Intn(2))+":"+strconv.Itoa(nextID)+":@"+itoa(rng.Int63n(unit+1)))
+					c.Stat = append(c.Stat, "gap-add-into-delivered-window")
+				} else {
+					op = append(op, strconv.Itoa(rng.Intn(2))+":"+strconv.Itoa(nextID)+":"+itoa(t))
+				}
 				nextID++
 				c.Stat = append(c.Stat, "gap-add")
 			}
@@ -103,6 +116,99 @@ func genLateOps(rng *rand.Rand, c *Case, unit, ooo, lateness int64) {
 	c.Ops = append(c.Ops, []string{"drain"}, []string{"tick"}, []string{"drain"})
 }
 
+// genSQLSessionLate: in-order rows of 1-2 keys; now and then a row of ANOTHER key far enough ahead closes the
+// sessions open so far, the harness waits until one of them has reached the sink (`await <id>`), and a late row
+// of that session (inside [first event, last event], well inside the allowance) follows.
+func genSQLSessionLate(rng *rand.Rand, c *Case, timeout int64) {
+	clock := int64(1_000_000_000)
+	keys := []string{"a", "b"}[:1+rng.Intn(2)]
+	id := 1
+	type open struct {
+		first, last int64
+		ids         []int
+	}
+	cur := map[string]*open{}
+	rounds := 1 + rng.Intn(3)
+	for r := 0; r < rounds; r++ {
+		for i := 0; i < 2+rng.Intn(5); i++ {
+			k := keys[rng.Intn(len(keys))]
+			clock += 1 + rng.Int63n(timeout/2)
+			if o := cur[k]; o != nil && clock-o.last < timeout {
+				o.last = clock
+				o.ids = append(o.ids, id)
+			} else {
+				cur[k] = &open{first: clock, last: clock, ids: []int{id}}
+			}
+			c.Ops = append(c.Ops, []string{"row", strconv.Itoa(id), itoa(clock), hx(k)})
+			id++
+		}
+		// close everything: a row of key "p" beyond every open session's end
+		clock += 3 * timeout
+		c.Ops = append(c.Ops, []string{"row", strconv.Itoa(id), itoa(clock), hx("p")})
+		id++
+		for _, k := range keys {
+			o := cur[k]
+			if o == nil {
+				continue
+			}
+			c.Ops = append(c.Ops, []string{"await", strconv.Itoa(o.ids[0])})
+			for j := 0; j < 1+rng.Intn(2); j++ {
+				t := o.first + rng.Int63n(o.last-o.first+1)
+				c.Ops = append(c.Ops, []string{"late", strconv.Itoa(id), itoa(t), hx(k)})
+				id++
+			}
+			c.Stat = append(c.Stat, "sql-late-row-of-delivered-session")
+		}
+		cur = map[string]*open{}
+		clock += timeout
+	}
+	c.Ops = append(c.Ops, []string{"row", strconv.Itoa(id), itoa(clock + 40*timeout), hx("zz")})
+	c.Ops = append(c.Ops, []string{"row", strconv.Itoa(id + 1), itoa(clock + 80*timeout), hx("zz")})
+	c.Ops = append(c.Ops, []string{"flush"})
+	c.Stat = append(c.Stat, "sql-level")
+}
+
+// genIdleOps: rounds of (idle tick, delivery, stale rows, busy tick, a stale row newer than everything seen, delivery)
+func genIdleOps(rng *rand.Rand, c *Case, unit, ooo int64) {
+	nextID := 1
+	front := int64(3)
+	add := func(ts int64) {
+		c.Ops = append(c.Ops, []string{"add", strconv.Itoa(nextID), itoa(ts)})
+		nextID++
+	}
+	deliver := func() {
+		if rng.Intn(3) == 0 {
+			c.Ops = append(c.Ops, []string{"drain"})
+		} else {
+			c.Ops = append(c.Ops, []string{"deliver"})
+		}
+	}
+	for i := 0; i < 2+rng.Intn(4); i++ {
+		front += int64(rng.Intn(3))
+		add(tsBase + front*unit + rng.Int63n(unit))
+		if rng.Intn(2) == 0 {
+			deliver()
+		}
+	}
+	for round := 0; round < 1+rng.Intn(3); round++ {
+		c.Ops = append(c.Ops, []string{"itick"})
+		deliver()
+		for i := rng.Intn(3); i > 0; i-- { // stale rows: dropped, but they count as events of the source
+			add(tsBase + (front-int64(rng.Intn(3)))*unit + rng.Int63n(unit))
+		}
+		for i := rng.Intn(3); i > 0; i-- {
+			c.Ops = append(c.Ops, []string{"tick"})
+		}
+		front += 1 + int64(rng.Intn(3))
+		add(tsBase + front*unit + rng.Int63n(unit)) // newer than every event so far, decades older than the watermark
+		if rng.Intn(2) == 0 {
+			c.Ops = append(c.Ops, []string{"tick"})
+		}
+		deliver()
+	}
+	c.Ops = append(c.Ops, []string{"itick"}, []string{"drain"})
+}
+
 func (c02) Gen(rng *rand.Rand, tier string, idx int) Case {
 	var c Case
 	if idx%15 == 14 {
@@ -113,6 +219,31 @@ func (c02) Gen(rng *rand.Rand, tier string, idx int) Case {
 		c.Cfg = [][]string{{"kind", "sqltumbling"}, {"size", itoa(sz)}, {"ooo", itoa(o)}, {"late", itoa(l)}, {"now", "0"}}
 		genSQLWindow(rng, &c, sz, o+l/2)
 		c.Stat = append(c.Stat, "sql-lateness>0")
+		return c
+	}
+	if idx%15 == 12 {
+		// SQL-level session windows with ALLOWEDLATENESS: a late row of a session that has already been delivered
+		to := []int64{1000, 500}[rng.Intn(2)]
+		c.Cfg = [][]string{{"kind", "sqlsession"}, {"timeout", itoa(to)}, {"ooo", "0"}, {"late", itoa(200 * to)}, {"now", "0"}}
+		genSQLSessionLate(rng, &c, to)
+		c.Stat = append(c.Stat, "sql-session-lateness>0")
+		return c
+	}
+	if idx%15 == 13 {
+		// IDLETIMEOUT of one hour with idle AND busy ticker updates placed by the harness (hook
+		// VerifWatermarkTickIdle): after an idle advance the watermark must stay where it is
+		size := int64(3_600_000_000_000)
+		ooo := []int64{0, size / 2, size}[rng.Intn(3)]
+		late := []int64{0, 0, size, 3 * size}[rng.Intn(4)]
+		if rng.Intn(3) == 0 {
+			c.Cfg = [][]string{{"kind", "sliding"}, {"mode", "et"}, {"size", itoa(2 * size)}, {"slide", itoa(size)}, {"ooo", itoa(ooo)}, {"late", itoa(late)}, {"now", "0"}, {"idle", itoa(size)}}
+			c.Stat = append(c.Stat, "sliding")
+		} else {
+			c.Cfg = [][]string{{"kind", "tumbling"}, {"mode", "et"}, {"size", itoa(size)}, {"ooo", itoa(ooo)}, {"late", itoa(late)}, {"now", "0"}, {"idle", itoa(size)}}
+			c.Stat = append(c.Stat, "tumbling")
+		}
+		c.Stat = append(c.Stat, "idle-and-busy-ticks")
+		genIdleOps(rng, &c, size, ooo)
 		return c
 	}
 	switch k := rng.Intn(10); {
